@@ -176,14 +176,18 @@ pub fn gen(tier: Tier, rng: &mut Rng64, out: &mut Out) {
             unary_all(rng, 3, l, out, &subsets);
         }
     }
-    let pairs3: u64 = if thorough { 65536 } else { 900 };
+    let pairs3: u64 = if thorough { 65536 } else { 1400 };
     for i in 0..pairs3 {
         let (a, b) = if thorough { ((i / 256) as usize, (i % 256) as usize) } else { (rng.below(256) as usize, rng.below(256) as usize) };
         let (l, r) = (&all3[a], &all3[b]);
         let tabs = outer_tables(rng);
         for m in 0..8usize {
             let tab = rng.pick(&tabs).clone();
-            quant_pair(rng, 3, &tab, l, r, &subset(3, m), out, false);
+            quant_pair(rng, 3, &tab, l, r, &subset(3, m), out, thorough);
+            if thorough {
+                let tab = rng.pick(&tabs).clone();
+                quant_pair(rng, 3, &tab, l, r, &subset(3, m), out, true);
+            }
         }
         let tab = rng.pick(&tabs).clone();
         let inner = inner_choice(rng);
@@ -196,7 +200,7 @@ pub fn gen(tier: Tier, rng: &mut Rng64, out: &mut Out) {
     // --- random operands over 4..6 variables (quick) / 4..8 (thorough); non-canonical operands;
     //     random subsets, all-variables-quantified cases (inner-cache sharing), lists mentioning
     //     variables outside the Bdd, arbitrary trigger masks
-    let rounds = if thorough { 120000 } else { 2200 };
+    let rounds = if thorough { 120000 } else { 3000 };
     for _ in 0..rounds {
         let n = 4 + rng.below(if thorough { 5 } else { 3 }) as usize;
         let mut l = random_bdd(rng, n);
